@@ -10,6 +10,7 @@ import PyProb.Model.Expanding
 import PyProb.Model.CMS
 import PyProb.Model.Cuckoo
 import PyProb.Model.QF
+import PyProb.Model.OnDisk
 
 namespace PyProb.Drv
 open PyProb
@@ -81,6 +82,7 @@ inductive Obj
   | cm (c : CmObj) (h : Hashing)
   | cuckoo (c : Cuckoo) (seed : Int)
   | qf (s : QF)
+  | ondisk (o : OnDisk) (h : Hashing)
 
 structure St where
   objs : Std.HashMap Nat Obj := {}
